@@ -42,6 +42,9 @@ CONSTANTS WSel,       \* row of the weight table below
           Skew,       \* how the handler labels a delivered vote: {"judged"} = by comparing with the voter's context (same / old index /
                       \* future); with "same" also votes of ANOTHER index labelled msgSame (the handler judged against a context the
                       \* voter has already left or not yet reached, or a cached vote released late) -- the voter drops those
+          KSet,       \* vote kinds the peers send (a subset of K3, to focus a generation run)
+          Ring,       \* params.MaxVoteCacheCount (4): the voter keeps the tallies of the last Ring (round, index) contexts; the
+                      \* oldest tally object is cleared and reused for a new context (votes_mgr.go NewWrapper :377)
           MaxLost,    \* number of such mislabelled deliveries per behaviour
           FutureJudged, \* FALSE: correctly labelled future votes are not generated (stage without a message handler)
           Mode, MaxOps
@@ -123,12 +126,17 @@ Recv(x, s, k, b, ii, cred) ==
    ELSE IF ii > x.i THEN                                      \* msgFuture: verified, not counted; cached by the handler (codes <= msgNext)
         IF cred = "ok" /\ k \in Replay THEN [x EXCEPT !.cache[ii] = Append(@, [k |-> k, s |-> s, b |-> b])] ELSE x
    ELSE                                                       \* msgOldRoundIndex: an invalid credential passes (as coded :213)
-        IF k # "Precommit" THEN x
+        IF k # "Precommit" \/ ii + Ring <= x.i THEN x          \* (no wrapper any more for a context that left the ring)
         ELSE LET r == Tally(x.wr[ii], k, s, b, cred = "ok")
                  x1 == [x EXCEPT !.wr[ii] = r.w]
              IN IF r.res = "new" /\ r.count >= Q("Cert")       \* OverThreshold(totalCount, threshold, false) :587
                 THEN [x1 EXCEPT !.out = Append(@, [t |-> "U", i |-> ii, b |-> b, pre |-> Stored(r.w, "Precommit", b), inv |-> r.w.inv])]
                 ELSE x1
+
+\* updateContext :203 at a new round index: latches reset, a new wrapper -- beyond Ring contexts the oldest one, cleared
+Advance(x) == LET ni == x.i + 1 IN
+              [x EXCEPT !.i = ni, !.step = 0, !.pc = FALSE, !.cd = FALSE, !.cm = FALSE, !.over = {},
+                        !.wr = IF ni > Ring THEN [@ EXCEPT ![ni - Ring] = EmptyWrapper] ELSE @]
 
 \* processVoteMsg :515-519: a vote labelled msgSame whose (round, index) is not the voter's is dropped
 RecvAs(x, s, k, b, ii, cred, as) == IF as = "same" /\ ii # x.i THEN x ELSE Recv(x, s, k, b, ii, cred)
@@ -197,9 +205,9 @@ Step4 == /\ v.step < 4 /\ Mode # "GV"      \* the step has no effect on the coun
          /\ Tick([op |-> "Step", st |-> 4, best |-> Nil])
          /\ Apply([v EXCEPT !.step = 4], dl, dln) /\ UNCHANGED <<nmsg, nlost>>
 NextIdx == /\ v.i < MaxI /\ Tick([op |-> "NextIdx"])
-           /\ Apply(ReplayCached([v EXCEPT !.i = @ + 1, !.step = 0, !.pc = FALSE, !.cd = FALSE, !.cm = FALSE, !.over = {}]), dl, dln)
+           /\ Apply(ReplayCached(Advance(v)), dl, dln)
            /\ UNCHANGED <<nmsg, nlost>>
-Deliver == \E s \in Peers, k \in (IF CertRound THEN K3 ELSE K3 \ {"Cert"}), b \in Blocks, ii \in 1..MaxI, cred \in Creds, as \in Skew :
+Deliver == \E s \in Peers, k \in KSet \cap (IF CertRound THEN K3 ELSE K3 \ {"Cert"}), b \in Blocks, ii \in 1..MaxI, cred \in Creds, as \in Skew :
              /\ nmsg < MaxMsgs /\ nmsg' = nmsg + 1
              /\ (as = "same") => (ii # v.i /\ cred = "ok" /\ nlost < MaxLost)
              /\ nlost' = IF as = "same" THEN nlost + 1 ELSE nlost
